@@ -449,3 +449,60 @@ Print Assumptions run_args.
 Print Assumptions action_accepted.
 Print Assumptions action_complete.
 Print Assumptions parse_single_action.
+
+(* ------------------------------------------------------------------ layout insensitivity at token level *)
+
+Definition verdict_of (o : outcome) : option (list node) :=
+  match o with Accept r => Some r | _ => None end.
+
+Definition same_outcome (a b : outcome) : Prop :=
+  match a, b with
+  | Accept r, Accept r' => r = r'
+  | Reject e _ _, Reject e' _ _ => e = e'
+  | Crash _, Crash _ => True
+  | OutOfFuel, OutOfFuel => True
+  | _, _ => False
+  end.
+
+(* the machine over two token lists that differ only in positions: same verdict, same tree, same error
+   category (the reported position naturally differs), whatever fuel each run has as long as it is enough *)
+Lemma run_tokens_layout : forall T f1 f2 toks1 toks2 err1 err2 e1 e2 l1 l2 st,
+  map strip_pos toks1 = map strip_pos toks2 ->
+  (err1 = None <-> err2 = None) ->
+  run_tokens f1 T toks1 err1 e1 l1 st <> OutOfFuel ->
+  run_tokens f2 T toks2 err2 e2 l2 st <> OutOfFuel ->
+  same_outcome (run_tokens f1 T toks1 err1 e1 l1 st) (run_tokens f2 T toks2 err2 e2 l2 st).
+Proof.
+  intros T. induction f1 as [|f1 IH]; intros f2 toks1 toks2 err1 err2 e1 e2 l1 l2 st Hm He H1 H2; [cbn in H1; congruence|].
+  destruct f2 as [|f2]; [cbn in H2; congruence|].
+  destruct toks1 as [|t1 r1]; destruct toks2 as [|t2 r2]; try discriminate.
+  - rewrite !run_tokens_S_nil.
+    destruct err1, err2; try (exfalso; destruct He as [A B]; (discriminate (A eq_refl) || discriminate (B eq_refl))); cbn; auto.
+    unfold finish. destruct (match p_brackets st with b :: _ => Some [closing_kind b] | [] => p_expected st end); cbn; auto.
+    destruct (p_stack st); cbn; auto.
+  - rewrite !run_tokens_S_cons in *. cbn [map] in Hm.
+    assert (Hk : strip_pos t1 = strip_pos t2) by congruence.
+    assert (Hrest : map strip_pos r1 = map strip_pos r2) by congruence.
+    assert (K1 : t_kind t1 = t_kind t2) by (unfold strip_pos, mk in Hk; congruence).
+    assert (K2 : t_val t1 = t_val t2) by (unfold strip_pos, mk in Hk; congruence).
+    assert (Hp : process T st t1 = process T st t2).
+    { destruct t1 as [k1 v1 p1], t2 as [k2 v2 p2]. cbn in K1, K2. subst. apply process_pos. }
+    rewrite Hp in *. destruct (process T st t2) eqn:Ep; try (cbn; auto; fail);
+      rewrite K2 in *; apply IH; auto; cbn [map]; rewrite Hk, Hrest; reflexivity.
+Qed.
+
+(* C01: the verdict (and the tree, and the error category) is insensitive to whitespace and line-ending
+   style: two texts that lex to the same tokens are treated alike *)
+Theorem layout_insensitive : forall T text1 text2,
+  twf_tables T = true ->
+  map strip_pos (fst (lex text1)) = map strip_pos (fst (lex text2)) ->
+  (snd (lex text1) = None <-> snd (lex text2) = None) ->
+  same_outcome (parse T text1) (parse T text2).
+Proof.
+  intros T text1 text2 HT Hm He.
+  pose proof (parse_total T text1 HT) as P1. pose proof (parse_total T text2 HT) as P2.
+  rewrite !parse_run_tokens in *.
+  apply run_tokens_layout; auto; intro X; [rewrite X in P1|rewrite X in P2]; contradiction.
+Qed.
+
+Print Assumptions layout_insensitive.
